@@ -8,6 +8,8 @@ package main
 import (
 	"bufio"
 	"bytes"
+	"crypto/sha1"
+	"encoding/hex"
 	"fmt"
 	"os"
 	"os/exec"
@@ -31,8 +33,17 @@ func buildRace() (string, string) {
 	raceOnce.Do(func() {
 		wd, _ := os.Getwd() // the runner starts the harness in /verif/harness
 		bin := filepath.Join(wd, "bin", "c05race")
+		args := []string{"build", "-race", "-tags", "verif"}
+		if repo := repoRoot(); repo != "/repo" {
+			// a drill: the runner has written a go.mod that replaces the
+			// modules under test onto the scratch tree (see check, build_harness)
+			h := sha1.Sum([]byte(repo))
+			hx := hex.EncodeToString(h[:])
+			bin += "-alt" + hx[:6]
+			args = append(args, "-modfile", filepath.Join(wd, "..", "work", "altmod-"+hx[:8], "go.mod"))
+		}
 		os.Remove(bin)
-		cmd := exec.Command("go", "build", "-race", "-tags", "verif", "-o", bin, "./cmd/c05")
+		cmd := exec.Command("go", append(args, "-o", bin, "./cmd/c05")...)
 		cmd.Dir = wd
 		cmd.Env = append(os.Environ(), "GOFLAGS=-mod=mod", "GOPROXY=off", "GOSUMDB=off", "GOTOOLCHAIN=local", "CGO_ENABLED=1")
 		out, err := cmd.CombinedOutput()
@@ -70,7 +81,9 @@ func execRace(f []string) string {
 		return "err"
 	}
 	for attempt := 0; attempt < 5; attempt++ {
-		cmd := exec.Command(bin, append([]string{"raceone"}, f...)...)
+		// the op travels on stdin: a universe can exceed the argv limit
+		cmd := exec.Command(bin, "raceone")
+		cmd.Stdin = strings.NewReader(strings.Join(f, " ") + "\n")
 		cmd.Env = raceEnv()
 		var eb bytes.Buffer
 		cmd.Stderr = &eb
@@ -112,9 +125,22 @@ func raceConc(f []string) bool {
 }
 
 func raceOneMain(args []string) {
+	if len(args) == 0 {
+		args = stdinFields()
+	}
 	if len(args) != 3 || !raceConc(args) {
 		os.Exit(2)
 	}
+}
+
+// stdinFields reads one line of space separated fields from stdin.
+func stdinFields() []string {
+	sc := bufio.NewScanner(os.Stdin)
+	sc.Buffer(make([]byte, 1<<20), 1<<27)
+	if sc.Scan() {
+		return strings.Fields(sc.Text())
+	}
+	return nil
 }
 
 // raceBatchMain runs the concurrency phase of every line of a file of
@@ -159,12 +185,11 @@ func raceSample(c *fw.Ctx, jobs []job) {
 		}
 		recs = append(recs, fmt.Sprintf("%s %s roots=%s", sysName(j.u.Sys), j.u.encode(), encRoots(j.roots)))
 	}
-	wd, _ := os.Getwd()
-	file := filepath.Join(wd, "bin", "c05race.ops")
+	file := bin + ".ops"
 	os.WriteFile(file, []byte(strings.Join(recs, "\n")+"\n"), 0o644)
 	defer os.Remove(file)
 	from, races := 0, 0
-	deadline := time.Now().Add(6 * time.Minute)
+	deadline := time.Now().Add(5 * time.Minute)
 	for from < len(recs) && races < 5 && time.Now().Before(deadline) {
 		cmd := exec.Command(bin, "racebatch", file, strconv.Itoa(from))
 		cmd.Env = raceEnv()
